@@ -203,6 +203,12 @@ def showExprW : Expr → List String
   | .isNull n e => (if n then "notnull" else "isnull") :: showExprW e
   | .between n e lo hi => (if n then "nbtw" else "btw") :: (showExprW e ++ showExprW lo ++ showExprW hi)
   | .inList n e xs => ((if n then "nin" else "in") ++ toString xs.length) :: (showExprW e ++ showExprsW xs)
+  | .caseWhen parts => s!"case{parts.length / 2}" :: showCaseW parts
+  | .caseOf x parts => s!"casex{parts.length / 2}" :: (showExprW x ++ showCaseW parts)
+def showCaseW : List Expr → List String
+  | [] => ["noelse"]
+  | [e] => "else" :: showExprW e
+  | c :: r :: rest => showExprW c ++ showExprW r ++ showCaseW rest
 def showExprsW : List Expr → List String
   | [] => []
   | e :: es => showExprW e ++ showExprsW es
